@@ -199,6 +199,26 @@ fn bare_strings() -> Vec<Vec<u8>> {
         v.push(f.hex().into_bytes());
         v.push(format!("0123456789AB{}", f.hex()).into_bytes());
     }
+    // the 12-digit time stamps receivers really produce at the extremes: all zeros, all ones, and the constant a
+    // multilateration client puts in front of synthetic results
+    for ts in ["000000000000", "FFFFFFFFFFFF", "FF004D4C4154", "ff004d4c4154"] {
+        v.push(format!("{ts}{}", df17.hex()).into_bytes());
+        v.push(format!("{ts}{}", df4.hex()).into_bytes());
+    }
+    // the smallest and the largest address in the address/parity formats and in a squitter
+    for a in [0x000001u32, 0xFFFFFF, 0xFFFFFE, 0x800000] {
+        v.push(frames::df0(a, frames::ac13_for_alt(3000)).hex().into_bytes());
+        v.push(frames::df4(a, frames::ac13_for_alt(31000)).hex().into_bytes());
+        v.push(frames::df20(a, frames::ac13_for_alt(7000), 0).hex().into_bytes());
+        v.push(frames::df17(5, a, frames::me_ident(4, 3, frames::callsign_codes("EIN45F"))).hex().into_bytes());
+    }
+    // a short frame written twice on one line (28 digits announcing a 56-bit format), a short frame padded to 28
+    // digits so that its last 24 bits are the short frame's own parity
+    for f in [&df11, &df4] {
+        v.push(format!("{0}{0}", f.hex()).into_bytes());
+        v.push(format!("{}00000000000000{}", &f.hex()[..8], &f.hex()[8..]).into_bytes());
+        v.push(format!("{0}{0}{0}", f.hex()).into_bytes()[..40].to_vec());
+    }
     // rejected ones: 13, 15, 27, 29 digits, 14-digit prefix of a DF17, bad parity
     let h = df17.hex();
     v.push(h[..13].as_bytes().to_vec());
